@@ -470,8 +470,8 @@ Definition run_send (c : list N * N * N * N) : list bytes :=
 Definition digest (bs : bytes) : N :=
   fold_left (fun a b => (a * 16777619 + b) mod 4294967296) bs 2166136261.
 
-Definition run_send_big (c : list N * N * N * N) : list (nat * bytes * N) :=
-  map (fun f => (length f, firstn 24 f, digest f)) (run_send c).
+Definition run_send_big (c : list N * N * N * N) : list (N * bytes * N) :=
+  map (fun f => (blen f, firstn 24 f, digest f)) (run_send c).
 
 Definition o_xfer (e : key * xfer) :=
   (fst e, o_opt (x_end (snd e)), map fst (x_segs (snd e))).
@@ -504,6 +504,6 @@ Definition run_xfer (c : N * N * N * N * list nat) :=
   let frames := send_transfer (Some mtu) xid data in
   let arrival := map (fun i => (1, nth i frames [])) order in
   let '(tr, fin) := recv_trace rx_init arrival in
-  (map fst tr, map (fun d => (length d, digest d)) (queued fin), r_signals fin,
+  (map fst tr, map (fun d => (blen d, digest d)) (queued fin), r_signals fin,
    map o_xfer (r_prog fin), r_timers fin,
    match queued fin with [d] => bytes_eqb d data | _ => false end).
